@@ -10,7 +10,10 @@ ON(o) == CASE o = o1 -> 1 [] o = o2 -> 2 [] OTHER -> 0
 
 \* the process that moved in this step ("env" for Tick / Deliver); the closer wins when it stops the collector
 MovedSet == { p \in Procs : pc[p] # pc'[p] \/ loc[p] # loc'[p] }
-Mover == IF X \in MovedSet THEN X ELSE IF MovedSet = {} THEN "env" ELSE CHOOSE p \in MovedSet : TRUE
+\* (a reader that consumes an undecodable datagram comes back to the same gate with the same locals)
+Mover == IF X \in MovedSet THEN X
+         ELSE IF MovedSet = {} THEN (IF inbox # None /\ inbox' = None THEN RD ELSE "env")
+         ELSE CHOOSE p \in MovedSet : TRUE
 
 Label ==
   LET p == Mover IN
